@@ -353,6 +353,34 @@ Section Parser.
     cbn [p_count p_sum p_written]. repeat split; congruence.
   Qed.
 
+  (** ... and the re-parse of a stored form finds no title: title lines are
+      comments and are not written. *)
+  Theorem parse_stored_no_title x re st :
+    parse x re = (st, None) ->
+    exists st', parse (output st) false = (st', None) /\ p_title st' = [].
+  Proof.
+    unfold RuleListParser.parse at 1. destruct (scan x [] 0) as [toks tl] eqn:S.
+    destruct (process toks p_init) as [st1 [e|]] eqn:P; [discriminate|].
+    intros H. assert (st1 = st) by congruence. subst st1. clear H.
+    destruct (process_ok_inv _ _ _ P) as (ws & A & B & C & D & E & F).
+    cbn [p_init p_lines p_count p_sum p_written] in *. rewrite app_nil_r in A.
+    assert (Htok : Forall token_ok toks).
+    { eapply scan_tokens_ok; eauto. split; [intros []|reflexivity]. }
+    assert (Hout : output st = flat_map (fun r => r ++ [10]) ws).
+    { unfold output. now rewrite rv_rev, A, rev_involutive. }
+    assert (Hlines : Forall line_ok ws).
+    { eapply Forall_impl; [|exact B]. intros w ((Hno & _) & l & Hl & ->).
+      eapply Forall_forall in Htok; [|exact Hl]. destruct Htok as [T1 T2].
+      split; [split|].
+      - now apply trim_space_no_nl.
+      - pose proof (trim_space_length l). unfold lenN in *. lia.
+      - now apply no_outer_drop_cr. }
+    assert (Hrules : Forall rule_ok ws) by (eapply Forall_impl; [|exact B]; intros ? [? _]; assumption).
+    eexists. unfold RuleListParser.parse. rewrite Hout, (scan_stored ws Hlines).
+    rewrite (process_replay ws p_init Hrules (fun _ => F eq_refl)).
+    split; reflexivity.
+  Qed.
+
   (** ** Shape of the stored form *)
 
   Definition line_shape (w : bytes) : Prop :=
